@@ -218,6 +218,8 @@ fn conn_search() {
         Frame::SimpleString("OK".into()), Frame::Error("ERR something".into()), Frame::Integer(0), Frame::Integer(-42),
         Frame::Integer(i64::MAX), Frame::Integer(i64::MIN), b(b""), b(b"hello"), b(b"\r\n\0\r\n"), b(&[9u8; 70]), Frame::Null,
         Frame::Array(vec![]), Frame::Array(vec![b(b"SET"), b(b"k"), b(b"v\r\nv")]), Frame::Array(vec![Frame::Integer(1), Frame::Null, Frame::SimpleString("x".into())]),
+        Frame::Array((0..12).map(|i| if i % 3 == 0 { b(b"") } else { Frame::Integer(-(i as i64) * 1000) }).collect()),      // multi-digit array length, empty bulks inside
+        b(&vec![0xabu8; 70000]), Frame::Error("".into()), Frame::SimpleString("".into()), Frame::Integer(-1), Frame::Integer(10), Frame::Integer(-9223372036854775807),
     ];
     rt.block_on(async {
         // encode with the real writer
@@ -270,7 +272,7 @@ fn conn_search() {
             }
         }
     });
-    println!("{{\"found\": false, \"searched\": \"14 frames written by the real Connection and read back through a pipe in chunks of 1,2,3,5,7,64 bytes and all at once; stream complete and cut at 3 places\"}}");
+    println!("{{\"found\": false, \"searched\": \"21 frames (incl. a 12-element array, a 70000-byte bulk, empty strings, extreme integers) written by the real Connection and read back through a pipe in chunks of 1,2,3,5,7,64 bytes and all at once; stream complete and cut at 3 places\"}}");
 }
 
 /// T6 stand-in (bounded): Connection::write_decimal, reached through write_frame(Integer(v)), against an independent
